@@ -179,6 +179,25 @@ def correspond(ctx, name, cases, ops, coq_case, coq_header, chk, judge=None, con
                                    "job": {"op": op, "args": args_},
                                    "property_verdict_on_this_input": verdict,
                                    "no_input": verdict is None})
+    # 5. a broken proof obligation means the (regenerated) model may have moved WITH the code: agreement then says nothing, so the
+    #    property-level judge is applied to every observation in search of a concrete failing input
+    if judge is not None and any(not ok for (_n, ok, _l) in ctx.obligations):
+        searched, found = 0, 0
+        for ti, (ci, who, obs_list) in enumerate(owners):
+            if ti in bad_terms:
+                continue
+            for (cfg, op, raw, args_) in who:
+                searched += 1
+                if known and known(cases[ci], op, cfg, raw):
+                    continue
+                verdict = safe_judge(judge, cases[ci], op, cfg, raw)
+                if verdict is not None and found < 5:
+                    found += 1
+                    ctx.violations.append({"kind": "property-fails-on-implementation (judge applied after a broken obligation)",
+                                           "correspondence": name, "config": cfg, "op": op, "case": cases[ci],
+                                           "implementation_returned": raw, "job": {"op": op, "args": args_},
+                                           "verdict": verdict})
+        stats["judged_after_broken_obligation"] = searched
     if nontrivial:
         stats["distinct_nontrivial"] = len({json.dumps(c, default=str, sort_keys=True) for c in cases if nontrivial(c)})
     stats["wall_s"] = round(time.time() - t0, 2)
